@@ -11,6 +11,10 @@ order on a finite map) resp. `vSpecRun` (last value received since `linked`).
 `Restr.noTakeDrop` restricts the *callback-trace* claims to update / remove / clear; for take / drop the callbacks are
 characterised separately (`C08_*take_drop*`). The only statement kept as a `def` with a `_fails` witness is F6 (the client
 folds its own writes into its replica).
+
+Last section (C08x): the mode switch of the client tasks. `run_io` has a second, separate loop (`Mode::Read`) that takes over
+when the write handle is dropped; `C08_read_only_mode_same_fold` shows that state, callbacks and termination are then those of
+the run in which the handle is never dropped, for both flags, every op sequence and every drop point.
 -/
 import SwimVerif.Proofs.DownlinkTask
 
